@@ -4,7 +4,7 @@ From Coq Require Import List ZArith QArith Qabs Bool Arith.
 Import ListNotations.
 Require Import DH.C05_Direction.Model DH.C05_Direction.LemmasBasic DH.C05_Direction.LemmasVec DH.C05_Direction.LemmasSign
   DH.C05_Direction.LemmasScalar DH.C05_Direction.LemmasInvar DH.C05_Direction.LemmasHist DH.C05_Direction.LemmasAffine
-  DH.C05_Direction.LemmasScaler DH.C05_Direction.LemmasFinal DH.C05_Direction.Check DH.C05_Direction.Names.
+  DH.C05_Direction.LemmasScaler DH.C05_Direction.LemmasFinal DH.C05_Direction.LemmasProperty DH.C05_Direction.Check DH.C05_Direction.Names.
 Require Import DH.Generated.Facts_C05.
 Open Scope Q_scope.
 
@@ -53,9 +53,7 @@ Theorem C05_tell_negates :
     (forall y, In (c, TVal y) (cbo_tell ignore jobs) <-> exists v, In (c, Some v) jobs /\ y = vneg v)
     /\ (In (c, TFail) (cbo_tell ignore jobs) <-> ignore = false /\ In (c, None) jobs)
     /\ (forall good x, In x good -> x <= fill_value PMax good).
-Proof.
-  intros ignore jobs c. split; [intros y; apply cbo_tell_in|]. split; [apply cbo_tell_fail|exact fill_max_worst].
-Qed.
+Proof. exact tell_negates_all. Qed.
 Print Assumptions C05_tell_negates.
 
 (* Linear, Chebyshev and augmented Chebyshev are monotone on the orthant above the utopia point (where the repaired
@@ -67,13 +65,7 @@ Theorem C05_scalar_monotone :
           lin w y < lin w y' /\ forall a, 0 < a -> augcheb a w y < augcheb a w y')
     /\ (allpos w -> w <> [] -> length w = length y -> vlt y y' ->
           cheb w y < cheb w y' /\ forall a, 0 <= a -> augcheb a w y < augcheb a w y').
-Proof.
-  intros w y y' Hy H. split; [|split].
-  - intros Hw. split; [apply lin_mono; assumption|]. split; [apply cheb_mono; assumption|].
-    intros a Ha. apply aug_mono; assumption.
-  - intros Hw L Hne. split; [apply lin_strict; assumption|]. intros a Ha. apply aug_strict; assumption.
-  - intros Hw Hne L Hlt. split; [apply cheb_strict; assumption|]. intros a Ha. apply aug_strict_all; assumption.
-Qed.
+Proof. exact scalar_monotone_all. Qed.
 Print Assumptions C05_scalar_monotone.
 
 (* All five scalarisers: on the orthant above the utopia point the value is >= 0, it is 0 at the utopia point and
@@ -81,11 +73,7 @@ Print Assumptions C05_scalar_monotone.
 Theorem C05_utopia_unique_minimum :
   forall k par w y, allpos w -> w <> [] -> length w = length y -> 0 <= par -> nonneg y ->
     0 <= scal k par w y /\ (scal k par w y == 0 <-> allzero y).
-Proof.
-  intros k par w y Hw Hne L Hp Hy. split; [apply scal_nonneg; assumption|]. split.
-  - apply scal_zero_inv; assumption.
-  - apply scal_at_zero.
-Qed.
+Proof. exact utopia_unique_minimum_all. Qed.
 Print Assumptions C05_utopia_unique_minimum.
 
 (* Several objectives, exploitation only, every candidate observed, interpolating surrogate, REPAIRED scalarisation
@@ -110,14 +98,7 @@ Theorem C05_moo_exploit :
     /\ (k = SLin \/ (k = SAug /\ 0 < par) ->
         forall c, In c cs -> (forall j, (j < m)%nat -> ob C obj x j <= ob C obj c j) ->
                   forall j, (j < m)%nat -> ob C obj c j == ob C obj x j).
-Proof.
-  intros C obj mu sigma sc kappa par k w m cs d Hk Hw Lw Hm Hpar Hne Hsc Hint x.
-  split; [|split; [|split]].
-  - exact (proj1 (proposal_min C obj mu sigma sc kappa par k w m cs d Hk Hne Hint)).
-  - intros c' Hc' Hb. eapply moo_ideal with (sc := sc) (par := par) (k := k) (w := w); eassumption.
-  - intros Hkind. eapply moo_weak with (sc := sc) (par := par) (k := k) (w := w); eassumption.
-  - intros Hkind. eapply moo_pareto with (sc := sc) (par := par) (k := k) (w := w); eassumption.
-Qed.
+Proof. exact moo_exploit_all. Qed.
 Print Assumptions C05_moo_exploit.
 
 (* The modelled scalers (identity, minmax, quantile-uniform fitted on the sample) satisfy the scaler hypothesis, so the three
@@ -125,7 +106,7 @@ Print Assumptions C05_moo_exploit.
 Theorem C05_scalers_increasing :
   forall sk ys a b, In a ys -> In b ys ->
     (a <= b -> scale_col sk ys a <= scale_col sk ys b) /\ (a < b -> scale_col sk ys a < scale_col sk ys b).
-Proof. intros sk ys a b Ha Hb. exact (scale_col_inc sk ys a b Ha Hb). Qed.
+Proof. exact scalers_increasing_all. Qed.
 Print Assumptions C05_scalers_increasing.
 
 Theorem C05_moo_exploit_model_scalers :
@@ -141,12 +122,7 @@ Theorem C05_moo_exploit_model_scalers :
     /\ (k = SLin \/ (k = SAug /\ 0 < par) ->
         forall c, In c cs -> (forall j, (j < m)%nat -> ob C obj x j <= ob C obj c j) ->
                   forall j, (j < m)%nat -> ob C obj c j == ob C obj x j).
-Proof.
-  intros C obj mu sigma sk kappa par k w m cs d Hk Hw Lw Hm Hpar Hne Hint x. split; [|split].
-  - intros c' Hc' Hb. eapply concrete_ideal with (sk := sk) (par := par) (k := k) (w := w); eassumption.
-  - intros Hkind. eapply concrete_weak with (sk := sk) (par := par) (k := k) (w := w); eassumption.
-  - intros Hkind. eapply concrete_pareto with (sk := sk) (par := par) (k := k) (w := w); eassumption.
-Qed.
+Proof. exact moo_exploit_model_scalers_all. Qed.
 Print Assumptions C05_moo_exploit_model_scalers.
 
 (* The direction does not change when a constant is added to the objectives or they are rescaled by a positive factor:
@@ -206,13 +182,7 @@ Theorem C05_oracles :
   /\ (forall rows vals, ok_scal_strict rows vals = true <-> ScalStrict rows vals)
   /\ (forall rows vals, ok_scal_ideal rows vals = true <-> ScalIdeal rows vals)
   /\ (forall xs ts, ok_scaler_mono xs ts = true <-> ScalerMono xs ts).
-Proof.
-  repeat (match goal with |- _ /\ _ => split end); intros; first
-    [ apply ok_pick_max_spec | apply ok_pick_weak_spec | apply ok_pick_pareto_spec | apply ok_pick_ideal_spec
-    | apply ok_lie_user_spec | apply ok_lie_vec_user_spec | apply ok_fill_user_spec | apply ok_order_reversing_spec
-    | apply ok_lcb_direction_spec | apply ok_scal_mono_spec | apply ok_scal_strict_spec | apply ok_scal_ideal_spec
-    | apply ok_scaler_mono_spec ].
-Qed.
+Proof. exact oracles_all. Qed.
 Print Assumptions C05_oracles.
 
 (* ---- non-vacuity ---- *)
